@@ -544,6 +544,15 @@ func e1RunWordInner(sc e1Scen, word []sym, scratch string, props map[string]bool
 			break
 		}
 	}
+	if sc.Mode == "flushfault" && sc.FaultAt == 0 {
+		// the device fills up while the last segment is open: whatever is still buffered cannot be flushed any more
+		if seg, isTS := r.mi.m.leadingStream.nextSegment.(*muxerSegmentMPEGTS); isTS {
+			nb := bufio.NewWriter(failingWriter{})
+			nb.WriteByte(0x47)
+			seg.bw = nb
+			r.mi.m.leadingStream.mpegtsSwitchableWriter.w = nb
+		}
+	}
 	if r.finalHook != nil {
 		r.finalHook(r)
 	}
